@@ -169,7 +169,10 @@ NOTES["C13"] = dict(
           "dependent vertices are never both coarse; every fine vertex has a coarse strong neighbour or nobody depends on it. The models "
           "reproduce the labels of the real sequential routines and of the distributed routines on every generated layout; totality, halo "
           "labels = owners' labels and the Ruge-Stuben neighbour clauses are evaluated on every output."),
-    note=("Ruge-Stuben first/second pass, Falgout and HMIS: specification predicates only. Open findings: distributed RS ignores off-process "
+    note=("Sequential Ruge-Stuben: bucket machine Model/RS.lean mirrors rs_first_pass/rs_second_pass (labels compared exactly); Props/C13RS.lean proves "
+          "fine-keeps-a-coarse-neighbour for every visit order, that the second pass only promotes and never promotes every fine point, and "
+          "totality / one-coarse-one-fine under two hypotheses on the bucket order that the driver evaluates on every instance. Distributed RS, "
+          "Falgout and HMIS: specification predicates only. Open findings: distributed RS ignores off-process "
           "dependencies; distributed PMIS/CLJP treat vertices without own dependency differently from the sequential routines."),
     technique="Lean 4 proof on round-synchronous executable models; label-level correspondence (seq and par)",
 )
